@@ -411,8 +411,8 @@ func runEngineCase(c engineCase) (res engineResult) {
 		for _, n := range names {
 			fmt.Fprintf(&mk, " (%d %s)", in.id(n), decl[n])
 		}
-		fmt.Fprintf(&b, " (change (mk%s) (mpkg %s) (ppkg %s) (mimports %s) (pimports %s) (minus %s) (plus %s) (mdots %s) (pdots %s))",
-			mk.String(), mpkg, ppkg, mimps[1:len(mimps)-1], pimps[1:len(pimps)-1], mnode, pnode, mtab[1:len(mtab)-1], ptab[1:len(ptab)-1])
+		fmt.Fprintf(&b, " (change (mk%s) (mpkg %s) (ppkg %s) (mimports %s) (pimports %s) (minus %s) (plus %s) (mdots %s) (pdots %s) (blank %d) (dot %d))",
+			mk.String(), mpkg, ppkg, mimps[1:len(mimps)-1], pimps[1:len(pimps)-1], mnode, pnode, mtab[1:len(mtab)-1], ptab[1:len(ptab)-1], in.id("_"), in.id("."))
 	}
 	b.WriteString("))")
 	res.Case = b.String()
